@@ -359,3 +359,45 @@ theorem deficit_step {s : State σ κ} (hw : WF c s) (hm : MainOK s) (hs : SubB 
 
 end
 end C15
+
+namespace C15
+section
+variable {σ κ : Type} [DecidableEq σ] [DecidableEq κ] (c : Cfg σ κ)
+
+omit [DecidableEq κ] in
+theorem mem_le_asumP {α : Type} (p : κ → Bool) (f : α → Int) (m : List (κ × α))
+    (hf : AllV (fun _ v => 0 ≤ f v) m) {k : κ} {v : α} (hk : (k, v) ∈ m) (hp : p k = true) :
+    f v ≤ asumP p f m := by
+  induction m with
+  | nil => cases hk
+  | cons q r ih =>
+    obtain ⟨k0, v0⟩ := q
+    have hr : AllV (fun _ v => 0 ≤ f v) r := fun a b hab => hf a b (List.mem_cons_of_mem _ hab)
+    have h0v : 0 ≤ f v0 := hf k0 v0 (by simp)
+    have hnn := asumP_nonneg p f r hr
+    rcases List.mem_cons.mp hk with h | h
+    · cases h; simp only [asumP, hp, if_true]; omega
+    · have := ih hr h
+      simp only [asumP]; split <;> omega
+
+/-- every exec address's own balance covers the accounts held under it. -/
+def Backed (c : Cfg σ κ) (s : State σ κ) : Prop := ∀ e, 0 ≤ deficit c s e
+
+/-- In a backed, non-negative state no sub-account field exceeds `MaxTokenBalance`. -/
+theorem backed_subB {s : State σ κ} (hm : MainOK s)
+    (hn : AllV (fun _ r => 0 ≤ r.bal ∧ 0 ≤ r.frz) s.sub) (hb : Backed c s) :
+    SubB 9000000000000000000 s.sub := by
+  intro k r hkr
+  obtain ⟨h1, h2⟩ := hn k r hkr
+  have hsum : r.bal + r.frz ≤ subSum k.1 s := by
+    unfold subSum
+    exact mem_le_asumP (fun k' => decide (k'.1 = k.1)) (fun r => r.bal + r.frz) s.sub
+      (allv_mono hn (fun _ _ h => by omega)) hkr (by simp)
+  have hd := hb k.1
+  rw [deficit_eq] at hd
+  obtain ⟨_, b2, _⟩ := mainOK_load c hm k.1
+  unfold mb at hd
+  refine ⟨h1, ?_, h2, ?_⟩ <;> omega
+
+end
+end C15
